@@ -24,7 +24,11 @@ Definition case := round.
 Definition check (c : case) : verdict :=
   match c with
   | RoundIncr init final acks _ =>
-      mk_verdict (negb (serial_chain (S (List.length acks)) init final acks))
+      (* with positive deltas the values only grow, so the chain is unique and the greedy search is complete;
+         with mixed deltas a value can be revisited and only the sum is compared *)
+      mk_verdict (negb (if forallb (fun a => (0 <? fst a)%Z) acks
+                        then serial_chain (S (List.length acks)) init final acks
+                        else counter_ok_b init final acks))
                  (negb (counter_ok_b init final acks)) 0
   | RoundSetnx oks _ _ final =>
       mk_verdict (negb (match oks, final with
